@@ -206,7 +206,75 @@ def strat(lm_type):
     return make
 
 
+# ---------------------------------------------------------------- what the page-level decoder hands on
+PD_TABLES = [["a", " ", "b", "c"], [" ", "a", "b", "\u200b", "c"], ["a", "b", "c", "d"], ["\t", "a", " ", "b"]]
+
+
+def strat_page_decoder():
+    from hypothesis import strategies as st
+
+    @st.composite
+    def case(draw):
+        tab = draw(st.sampled_from(PD_TABLES))
+        C = len(tab) + 1
+        n = draw(st.integers(1, 4))
+        paths = [draw(st.lists(st.integers(0, C - 1), min_size=1, max_size=9)) for _ in range(n)]
+        edge = draw(st.booleans())
+        if edge:        # a line that starts or ends with the table's space-like character
+            sp = [i for i, ch in enumerate(tab) if not ch.strip() or ch == "\u200b"]
+            if sp:
+                paths[0] = [sp[0]] + paths[0] + [sp[-1]]
+        return (tab, paths, draw(st.sampled_from([2, 5, 20])), draw(st.sampled_from([0.0, 0.5, 1.0])), draw(st.integers(0, 10 ** 6)),
+                draw(st.booleans()))
+    return case()
+
+
+def body_page_decoder(ctx, case):
+    """PageDecoder stores, as the line's transcription, exactly the best hypothesis of the bag the decoder returned."""
+    from pero_ocr.core.layout import PageLayout, RegionLayout, TextLine
+    from pero_ocr.decoding.decoders import CTCPrefixLogRawNumpyDecoder, BLANK_SYMBOL
+    from pero_ocr.document_ocr.page_parser import PageDecoder, prepare_dense_logits
+    from vlib.pages import sparsify
+    tab, paths, k, scale, seed, carry = case
+    C = len(tab) + 1
+    letters = tab + [BLANK_SYMBOL]
+    rs = np.random.RandomState(seed)
+
+    def make_decoder():
+        lm = HashLM(seed, C - 1) if scale > 0 else None
+        return CTCPrefixLogRawNumpyDecoder(letters, k, lm=lm, lm_scale=scale if lm else 1.0)
+    page = PageLayout(id="p", page_size=(100, 400))
+    reg = RegionLayout("r", np.asarray([[0, 0], [400, 0], [400, 100], [0, 100]], dtype=np.float64))
+    for i, p in enumerate(paths):
+        dense = rs.uniform(-3, 0, size=(len(p), C))
+        for t, c in enumerate(p):
+            dense[t, c] = rs.uniform(4, 9)
+        line = TextLine(id="l%d" % i, baseline=np.asarray([[5.0, 20.0 * i + 10], [300.0, 20.0 * i + 10]]),
+                        polygon=np.asarray([[5.0, 20.0 * i], [300.0, 20.0 * i], [300.0, 20.0 * i + 14], [5.0, 20.0 * i + 14]]), heights=[10.0, 4.0])
+        line.logits = sparsify(dense)
+        line.characters = list(tab) + ["\u200b"]
+        line.logit_coords = [0, len(p)]
+        line.transcription = "?"
+        reg.lines.append(line)
+    page.regions = [reg]
+    want = []
+    ref = make_decoder()
+    for line in reg.lines:
+        want.append(ctx.must("decoder_raises", ref, prepare_dense_logits(line)).best_hyp())
+    pd = PageDecoder(make_decoder())
+    ctx.must("page_decoder_raises", pd.process_page, page)
+    got = [l.transcription for l in reg.lines]
+    ctx.check(got == want, "page_decoder_does_not_hand_on_the_best_hypothesis",
+              lambda: "table=%r paths=%r k=%d scale=%r stored %r best hypotheses %r" % (tab, paths, k, scale, got, want))
+    if any(w != w.strip() or "\u200b" in w for w in want):
+        ctx.event("best_hypothesis_with_edge_whitespace_or_zero_width")
+        ctx.nontrivial(("pd", tuple(tab), tuple(map(tuple, paths)), k, scale, seed))
+    elif len(want) >= 2 and len(set(want)) >= 2:
+        ctx.nontrivial(("pd", tuple(tab), tuple(map(tuple, paths)), k, scale, seed))
+
+
 UNITS = [
     Unit("hashlm", "given", body=body, strategy=strat("hash"), quick=3000, thorough=40000, render=render_case),
     Unit("lstmlm", "given", body=body, strategy=strat("lstm"), quick=600, thorough=3000, render=render_case),
+    Unit("page_decoder", "given", body=body_page_decoder, strategy=strat_page_decoder, quick=400, thorough=6000),
 ]
